@@ -899,16 +899,18 @@ Definition SIF (f : sess -> sess) : Prop := forall s, SI s -> SI (f s).
 Lemma si_handle_disconnect dr : SIF dr -> SIF (handle_disconnect_state dr).
 Proof.
   intros Hdr s H. unfold handle_disconnect_state. cbv zeta.
-  match goal with |- context [if ?b then log_cb s CbOnLogout else s] =>
-    assert (H1 : SI (if b then log_cb s CbOnLogout else s)) by (destruct b; [apply si_log; [exact H | exact I] | exact H]);
-    set (s1 := if b then log_cb s CbOnLogout else s) in * end.
+  pose proof (Hdr s H) as H0. set (s0 := dr s) in *.
+  destruct (is_connected (s_st s) && negb (is_connected (s_st s0))); [exact H0|].
+  match goal with |- context [if ?b then log_cb s0 CbOnLogout else s0] =>
+    assert (H1 : SI (if b then log_cb s0 CbOnLogout else s0)) by (destruct b; [apply si_log; [exact H0 | exact I] | exact H0]);
+    set (s1 := if b then log_cb s0 CbOnLogout else s0) in * end.
   assert (H2 : SI (if c_reset_on_disconnect (s_cfg s1) then drop_and_reset s1 else s1)).
   { destruct (c_reset_on_disconnect (s_cfg s1)) eqn:Er; [|exact H1]. apply si_drop_and_reset; [exact H1|].
     intros Hnr. destruct (HNRc Hnr) as (_ & _ & C3). rewrite (si_cfg _ H1), C3 in Er. discriminate. }
   set (s2 := if c_reset_on_disconnect (s_cfg s1) then drop_and_reset s1 else s1) in *.
   assert (H3 : SI (if s_out_open s2 then upd_chan s2 false (s_in_open s2) (s_in_buf s2) true else s2)).
   { destruct (s_out_open s2); [apply si_upd_chan; [exact H2 | apply H2] | exact H2]. }
-  apply si_upd_chan; [apply Hdr; exact H3 | intros m []].
+  apply si_upd_chan; [exact H3 | intros m []].
 Qed.
 
 Lemma si_set_state_with dr s next : SIF dr -> SI s -> stash_ok next -> SI (set_state_with dr s next).
